@@ -543,6 +543,15 @@ def generate():
     from .translate_dims import generate_dims
 
     status.update(generate_dims(gen))
+    from .translate_frm import generate_frm
+
+    status.update(generate_frm(gen))
+    from .translate_xr3 import generate_xr3
+
+    status.update(generate_xr3(gen))
+    from .translate_rg import generate_rg
+
+    status.update(generate_rg(gen))
     return status
 
 
